@@ -762,4 +762,66 @@ example : rowTags .disk [⟨.int .w32, true⟩, ⟨.bool, true⟩] [.null, .int 
 example : selectAll .disk [⟨.int .w32, false⟩, ⟨.int .w32, true⟩] [[.null, .null], [.int .w32 1, .dec 27]]
     = [[.int .w32 1, .int .w32 2]] := by decide
 
+/-! ## CREATE TABLE column options: declared nullability = catalogued nullability -/
+
+theorem optFold_nullable (st : Bool × Bool) (opts : List ColOpt) :
+    (optFold st opts).1 = (lastNullability opts).getD st.1 := by
+  induction opts generalizing st with
+  | nil => rfl
+  | cons o os ih =>
+    simp only [optFold, lastNullability]
+    rw [ih]
+    cases h : lastNullability os with
+    | some b => simp
+    | none => cases o <;> simp [optStep]
+
+/-- A column whose last nullability option is NOT NULL is catalogued not nullable — for EVERY
+option list (any order, repeated or contradicting options, UNIQUE / PRIMARY KEY anywhere). -/
+theorem declared_not_null_catalogued (opts : List ColOpt) (nn : Bool × Bool)
+    (hlast : lastNullability opts = some false) (hc : catalogOf opts = some nn) : nn.1 = false := by
+  unfold catalogOf at hc
+  split at hc
+  · cases hc
+  · simp only [Option.some.injEq] at hc
+    subst hc
+    simp only
+    split
+    · rfl
+    · rw [optFold_nullable, hlast]; rfl
+
+/-- A PRIMARY KEY column is catalogued not nullable whatever else is written. -/
+theorem primary_key_catalogued_not_null (opts : List ColOpt) (nn : Bool × Bool)
+    (hpk : pkCount opts = 1) (hc : catalogOf opts = some nn) : nn.1 = false := by
+  unfold catalogOf at hc
+  simp only [hpk, gt_iff_lt, Nat.lt_irrefl, if_false, beq_self_eq_true, if_true,
+    Option.some.injEq] at hc
+  subst hc; rfl
+
+/-- Exactly: catalogued nullable iff no PRIMARY KEY and the last nullability option is not
+NOT NULL (none at all, or NULL). -/
+theorem catalogued_nullable_iff (opts : List ColOpt) (nn : Bool × Bool)
+    (hc : catalogOf opts = some nn) :
+    nn.1 = true ↔ (pkCount opts = 0 ∧ lastNullability opts ≠ some false) := by
+  unfold catalogOf at hc
+  split at hc
+  · cases hc
+  · rename_i hle
+    simp only [Option.some.injEq] at hc
+    subst hc
+    simp only
+    have hle' : pkCount opts ≤ 1 := by omega
+    by_cases h1 : pkCount opts = 1
+    · simp [h1]
+    · have h0 : pkCount opts = 0 := by omega
+      simp only [h0, Nat.zero_ne_one, beq_iff_eq, if_false, true_and]
+      rw [optFold_nullable]
+      cases h : lastNullability opts with
+      | none => simp
+      | some b => cases b <;> simp
+
+example : catalogOf [.notNull, .unique] = some (false, false) := by decide
+example : catalogOf [.unique, .null, .notNull] = some (false, false) := by decide
+example : catalogOf [.notNull, .null, .primaryKey] = some (false, true) := by decide
+example : catalogOf [.primaryKey, .primaryKey] = none := by decide
+
 end RlModel
